@@ -117,8 +117,144 @@ pub fn run(ctx: &Ctx) {
     }
 }
 
+/// Sixteen threads released at the same instant each make their FIRST use of the code under the property in this
+/// process (lazily built tables, lazily compiled patterns, once-cells): every one of them must get the right answer.
+/// Must run before anything else touches the library - main calls it first, `--replay` of such a failure runs it again
+/// in its fresh process.
+pub fn first_use_race(id: &str) -> Result<(), String> {
+    use flipdot_core::{Address, Data, Frame, Message, MsgType, Page, PageId, SignType};
+    type After = Box<dyn FnOnce() -> Result<(), String> + Send>;
+    // phase 1 (before the start signal): build the inputs; phase 2 (the returned closure, run at the signal): the first use
+    let prepare: Box<dyn Fn(usize) -> After + Sync> = match id {
+        "C01" | "C02" | "C03" | "C15" | "C16" | "C17" => Box::new(|k| {
+            let f = Frame::new(Address(0x7F), MsgType(2), Data::try_new(vec![0xFF]).unwrap());
+            Box::new(move || {
+                if k % 2 == 0 {
+                    let text = f.to_bytes();
+                    if text != b":01007F02FF7F" {
+                        return Err(format!("thread {k}: first encoding in this process gives {}", crate::engine::show_bytes(&text)));
+                    }
+                }
+                match Frame::from_bytes(b":01007F02FF7F\r\n") {
+                    Ok(g) if g == f => {}
+                    other => return Err(format!("thread {k}: first decoding in this process gives {other:?}")),
+                }
+                match Frame::from_bytes(b":01007F02FF7E") {
+                    Err(_) => Ok(()),
+                    Ok(g) => Err(format!("thread {k}: first decoding of a bad-checksum text in this process gives {g:?}")),
+                }
+            })
+        }),
+        "C04" | "C05" | "C10" | "C11" => Box::new(|k| {
+            // a different row of the code table per thread, the later rows first
+            let all = crate::repr::all_addressed(3);
+            let want = all[all.len() - 1 - (k * 2) % all.len()].clone();
+            let (addr, ty, data) = want.ref_frame();
+            let frame = Frame::new(Address(addr), MsgType(ty), Data::try_new(data.clone()).unwrap());
+            let twin = Frame::new(Address(addr), MsgType(ty), Data::try_new(data).unwrap());
+            Box::new(move || {
+                let got = Message::from(frame);
+                if crate::repr::M::from_message(&got) != want {
+                    return Err(format!("thread {k}: the first Frame -> Message conversion in this process gives {got:?} instead of {}", want.short()));
+                }
+                let back = Frame::from(got);
+                if back != twin {
+                    return Err(format!("thread {k}: the first Message -> Frame conversion in this process gives {back:?}"));
+                }
+                Ok(())
+            })
+        }),
+        "C06" | "C07" | "C08" | "C09" => Box::new(|k| {
+            Box::new(move || {
+                let mut p = Page::new(PageId(k as u8), 9, 9);
+                p.set_pixel(8, 8, true);
+                if !p.get_pixel(8, 8) || p.get_pixel(0, 0) || p.as_bytes().len() != 32 {
+                    return Err(format!("thread {k}: the first page operations in this process misbehave ({} bytes)", p.as_bytes().len()));
+                }
+                match Page::from_bytes(9, 9, p.as_bytes().to_vec()) {
+                    Ok(q) if q == p => Ok(()),
+                    other => Err(format!("thread {k}: the first from_bytes in this process gives {other:?}")),
+                }
+            })
+        }),
+        "C12" | "C13" | "C14" | "C19" => Box::new(|k| {
+            let t = crate::oracle::vsign::TYPES[(10 - k % 11) % 11].0;
+            Box::new(move || match SignType::from_bytes(t.to_bytes()) {
+                Ok(back) if back == t => Ok(()),
+                other => Err(format!("thread {k}: the first SignType::from_bytes in this process gives {other:?} for the block of {t:?}")),
+            })
+        }),
+        _ => return Ok(()),
+    };
+    let n = 16usize;
+    let barrier = std::sync::Barrier::new(n);
+    let go = std::sync::atomic::AtomicBool::new(false);
+    let results: Vec<Result<(), String>> = std::thread::scope(|sc| {
+        let handles: Vec<_> = (0..n)
+            .map(|k| {
+                let (barrier, go, prepare) = (&barrier, &go, &prepare);
+                sc.spawn(move || {
+                    let after = prepare(k);
+                    barrier.wait();
+                    if k == n - 1 {
+                        go.store(true, std::sync::atomic::Ordering::Release);
+                    }
+                    while !go.load(std::sync::atomic::Ordering::Acquire) {
+                        std::hint::spin_loop();
+                    }
+                    match crate::engine::catch(after) {
+                        Ok(r) => r,
+                        Err(p) => Err(format!("thread {k}: panic on first use: {p}")),
+                    }
+                })
+            })
+            .collect();
+        handles.into_iter().map(|h| h.join().unwrap_or_else(|_| Err("worker died".into()))).collect()
+    });
+    let bad: Vec<&String> = results.iter().filter_map(|r| r.as_ref().err()).collect();
+    if bad.is_empty() {
+        Ok(())
+    } else {
+        Err(format!("{} of {n} threads that made their first use of the library at the same instant got a wrong answer; e.g. {}", bad.len(), bad[0]))
+    }
+}
+
+/// called by main before anything else
+pub fn first_use(ctx: &Ctx) {
+    if !ctx.part_enabled("first-use-race") {
+        return;
+    }
+    let mut st = crate::engine::Stats::new();
+    st.evals(16);
+    st.class("first-use-race");
+    let mut failure = first_use_race(&ctx.id).err();
+    // "first use" happens once per process: seven more processes, each running only the race
+    let mut shots = 1u64;
+    if let Ok(exe) = std::env::current_exe() {
+        for _ in 0..7 {
+            if failure.is_some() {
+                break;
+            }
+            if let Ok(out) = std::process::Command::new(&exe).arg(&ctx.id).arg("--first-use-race").output() {
+                shots += 1;
+                if out.status.code() == Some(1) {
+                    failure = Some(String::from_utf8_lossy(&out.stdout).lines().next().unwrap_or("a child process reported a wrong first use").to_string());
+                }
+            }
+        }
+    }
+    st.evals(16 * (shots - 1));
+    if let Some(m) = failure {
+        ctx.fail("first-use-race", serde_json::json!({"first_use_race": ctx.id}), m);
+    }
+    ctx.merge("first-use-race", st);
+}
+
 /// Ok(()) = the case satisfies the property, Err(message) = violation.
 pub fn replay(id: &str, part: &str, case: &Value) -> Result<(), String> {
+    if part == "first-use-race" {
+        return first_use_race(id);
+    }
     let r = crate::engine::catch(|| match id {
         "C01" => c01::replay(part, case),
         "C02" => c02::replay(part, case),
